@@ -161,7 +161,7 @@ claim("C19",
       "Lean 4 proof (column invariant by induction over writes) + per-entry correspondence + re-tokenisation oracle")
 
 claim("C11",
-      "PARTIAL proof. Lean 4 theorem path_denotes (structural recursion over the expression, generalised over the slices an enclosing conditional pushes into its "
+      "PARTIAL proof. Tag level (GE/Thm/C11Tag.lean over GE/Model/ItemPath.lean): model_paths_sound - the runtime's composition `item path = list path ++ [index]` preserves 'every scope variable that has a path is the value at that path', so every path handed to a model: binding outside <template name> bodies addresses the value its expression reads, at any nesting of wx:if / block / wx:for; the expression-level fact is the hypothesis PLaw.lpath_sound; sub_binding_unsound is the counterexample behind known finding D69 (bindings inside <template name> bodies); the model's paths are compared with the real modelPaths after creation and every update (corr:tagsem with paths). Expression level: PARTIAL proof. Lean 4 theorem path_denotes (structural recursion over the expression, generalised over the slices an enclosing conditional pushes into its "
       "branches): for every expression, scope configuration, mode (model / script / general) and run-time environment, evaluating the emitted path expression yields "
       "exactly the location the expression reads — member chain of the branch actually taken, rooted at the data field, the list item's path or the script module — "
       "and null exactly when the expression is not assignable in that mode; reads_value: the model path looked up in the data is the expression's value; "
